@@ -50,7 +50,7 @@ CHECKS.update({
     ),
     "C14": dict(
         engine="Bearer", category="model_checking",
-        text=("BearerDefs.tla holds the abstract product of 54 000 cases (header shapes x verifier outcomes x scope sets x expiry around the skew boundary x options), "
+        text=("BearerDefs.tla holds the abstract product of 81 600 cases (header shapes x verifier outcomes incl. error-with-info x scope lists incl. duplicates x expiry around the skew boundary x options), "
               "the code-shaped Expected and the declarative property Holds (iff admission, status by cause, challenge content, same token info). TLC checks "
               "Holds(c, Expected(c)) on the whole product and exports it; every case is run through the real middleware under a frozen clock and the TLA+ monitor "
               "evaluates Holds on the real outcome. Exhaustive in both tiers."),
